@@ -1,6 +1,6 @@
 (* C06 — proof-number solver verdicts agree with the game-theoretic truth.
    Only statements, `exact`, and Print Assumptions live here.  Models: Pn.v (prove/pn.go without PN-squared; entry point
-   PnRun.pn_run with the constants of /repo), Dfpn.v (prove/dfpn.go).  Proofs: AndOr.v, AndOrS.v, PnFacts.v, PnRunFacts.v, DfpnFacts.v.
+   PnRun.pn_run with the constants of /repo), Dfpn.v (prove/dfpn.go).  Proofs: AndOr.v, AndOrS.v, PnFacts.v, PnRunFacts.v, DfpnFacts.v, DfpnFactsL.v; non-vacuity examples: PnRunFacts.v, DfpnExample.v.
 
    The game the claims are about (PnFacts.v), for the attacker colour aw:
      succs basis p   legal successors of p: every move of AllMoves that Position.Move accepts
@@ -10,7 +10,7 @@
    Wb k h p     = "won within k plies on the line of play h" where the third occurrence (Position.Equal) of a position on
                   the line is not a win (AndOrS.v). *)
 From Coq Require Import NArith ZArith List Bool.
-Require Import Board Move GameOver Eval Search AndOr AndOrS Pn PnRun PnFacts PnRunFacts Dfpn DfpnFacts.
+Require Import Board Move GameOver Eval Search AndOr AndOrS Pn PnRun PnFacts PnRunFacts Dfpn DfpnFacts DfpnFactsL.
 Require Import Generated.Consts.
 Import ListNotations.
 Open Scope N_scope.
@@ -108,9 +108,32 @@ Theorem C06_dfpn_proven_sound :
 Proof. exact dfpn_proven_sound. Qed.
 Print Assumptions C06_dfpn_proven_sound.
 
+(* 6. dfpn_disproven_sound, restricted (_partial) to runs that met no threefold repetition: the full statement
+       dfpn p = (Disproven, m) -> ~ Wins att [] p
+   is open in the design because a bound derived from a repetition on one path is stored in the table and reused on other
+   paths.  Proved: under the same hypotheses on Sp (with C19 for the defender's immediate threats), a fresh solver whose
+   run ends with the repetition counter at 0 (DFPNStats.Repetition, compared with the solver on every run) reports
+   `disproven` only where the attacker has no forced win in the history-free game, within any number of plies. *)
+Theorem C06_dfpn_disproven_sound_norep_partial :
+  forall (basis : list N) (aw : bool) (Sp : position -> Prop),
+    (forall p m q, Sp p -> terminal aw p = None -> In m (all_moves p) -> dmv basis p m = Ok q -> Sp q) ->
+    (forall p, Sp p -> size p <= 8) ->
+    (forall p q, Sp p -> Sp q -> hash_of p = hash_of q ->
+       (W basis aw p <-> W basis aw q) /\ to_move_white p = to_move_white q /\ terminal aw p = terminal aw q) ->
+    (forall p, Sp p -> hash_of p <> 0) ->
+    (forall p, Sp p -> terminal aw p = None -> all_moves p <> []) ->
+    (forall p, Sp p -> terminal aw p = None -> solve p <> None -> attp aw p = false ->
+       exists q, In q (succs basis p) /\ terminal aw q = Some false) ->
+    forall lfuel dfuel entries g s e w,
+      Sp g -> prove basis aw lfuel dfuel entries g = (s, e, w) -> ds_rep (dst s) = 0 -> result_of aw g e = 2 ->
+      forall n, wn position (succs basis) (terminal aw) (attp aw) n g = false.
+Proof. exact dfpn_disproven_sound_norep. Qed.
+Print Assumptions C06_dfpn_disproven_sound_norep_partial.
+
 (* Not proved (tested by the check: model = solver on every generated run, oracle = exact retrograde solution):
      the move returned by DFPN with `proven` (the oracle judges it);
-     dfpn_disproven_sound : open in the design (a bound derived from a repetition on one path is stored in the table and
-                            reused on other paths); the oracle hunts for a wrong `disproven` on the cyclic region of the
-                            solved graphs (positions where the attacker can only shuffle) and has found none;
+     dfpn_disproven_sound for runs WITH repetitions: open in the design (a bound derived from a repetition on one path is
+                            stored in the table and reused on other paths); the oracle hunts for a wrong `disproven` on
+                            the cyclic region of the solved graphs (positions where the attacker can only shuffle - the
+                            only roots where the search meets repetitions) and has found none;
      PN-squared (the model has no PN-squared). *)
